@@ -52,7 +52,7 @@ func scriptedErr(mode string, ctx context.Context) error {
 	return errors.New("unknown mode " + mode)
 }
 
-func (s *Scripted) Validate() error { return scriptedErr(s.modeOf(), nil) }
+func (s *Scripted) Validate() error                           { return scriptedErr(s.modeOf(), nil) }
 func (s *Scripted) ValidateContext(ctx context.Context) error { return scriptedErr(s.modeOf(), ctx) }
 func (s *Scripted) modeOf() string {
 	if s == nil {
@@ -133,21 +133,36 @@ func main() {
 	in.Buffer(make([]byte, 1<<20), 1<<26)
 	out := bufio.NewWriter(os.Stdout)
 	defer out.Flush()
+	// one middleware instance per (type, variant), reused for every request of the run:
+	// state carried from one request to the next must not influence the verdict
+	type inst struct {
+		h          http.HandlerFunc
+		nextCalled *bool
+	}
+	ps := probes()
+	insts := map[string]inst{}
+	for _, p := range ps {
+		for vi, variant := range []func(http.HandlerFunc) http.HandlerFunc{p.plain, p.withCtx} {
+			nc := new(bool)
+			insts[fmt.Sprintf("%s/%d", p.name, vi)] = inst{h: variant(func(w http.ResponseWriter, r *http.Request) {
+				*nc = true
+				_, _ = w.Write([]byte("next"))
+			}), nextCalled: nc}
+		}
+	}
 	for in.Scan() {
 		line := in.Text()
 		var body []byte
 		if line != "-" {
 			body, _ = hex.DecodeString(line)
 		}
-		for _, p := range probes() {
-			for vi, variant := range []func(http.HandlerFunc) http.HandlerFunc{p.plain, p.withCtx} {
+		for _, p := range ps {
+			for vi := range []int{0, 1} {
 				for _, ck := range []string{"live", "cancelled", "expired"} {
 					ctx, cancel := mkctx(ck)
-					nextCalled := false
-					h := variant(func(w http.ResponseWriter, r *http.Request) {
-						nextCalled = true
-						_, _ = w.Write([]byte("next"))
-					})
+					in0 := insts[fmt.Sprintf("%s/%d", p.name, vi)]
+					*in0.nextCalled = false
+					h := in0.h
 					req := httptest.NewRequest(http.MethodPost, "/", bytes.NewReader(body)).WithContext(ctx)
 					rec := httptest.NewRecorder()
 					func() {
@@ -178,7 +193,7 @@ func main() {
 						}
 					}
 					nc := 0
-					if nextCalled {
+					if *in0.nextCalled {
 						nc = 1
 					}
 					d := 0
